@@ -1,4 +1,5 @@
 """C04 - the reply stream is always well-formed RESP, whatever clients or handlers supply."""
+import itertools
 import json
 import random
 import connlib
@@ -97,6 +98,34 @@ def scenarios_for(seed, nrandom):
                 R("ZSCORE", tok("key", "f2"), H), R("SET", H, tok("str", "v1")), R("KEYS", tok("str", "s:star")), R("SCAN", tok("int", n=0)), R("TYPE", H),
                 R("RENAME", H, tok("key", "m1")), R("EXISTS", H), R("DEL", tok("key", "m1"))]
         out.append({"handler": "example", "nconns": 1, "steps": [{"c": 0, "op": "send", "chunking": "perreq", "reqs": prog}]})
+    # input that is not RESP at all, one string per connection (a parse error ends the connection): whatever the server
+    # writes back - e.g. an error reply quoting the offending bytes - must still be a sequence of complete frames
+    alpha = b"*$+-19\r\n"
+    raws = [bytes(t) for l in (1, 2, 3) for t in itertools.product(alpha, repeat=l)]
+    raws += [b"$3\r\nabc\n\n", b"$3\r\nabc\r\r", b"$3\r\nabc\n\r", b"$0\r\n\n\n", b"*1\r\n$1\r\na\n\r", b"\r\n", b"\n\n", b"\r\r\n", b" \r\n", b"?\r\n\r\n",
+             b"*1\r\n\r\n", b"*1\r\n\n", b"*2\r\n$4\r\nECHO\r\n\r\n", b"$\r\n\r\n", b"*\r\n\r\n", b"+OK\n\r", b":1\r\r\n", b"$-2\r\n\r\n", b"*-2\r\n\r\n"]
+    for b in raws:
+        fr = {"cls": "wild", "name": "", "args": [], "frame": list(b)}
+        out.append({"handler": "rec", "nconns": 1, "steps": [{"c": 0, "op": "send", "chunking": "whole", "reqs": [echo("t1"), fr]}, {"c": 0, "op": "halfclose"}]})
+        if len(b) != 3:
+            out.append({"handler": "example", "nconns": 1, "steps": [{"c": 0, "op": "send", "chunking": "bytes", "reqs": [fr]}, {"c": 0, "op": "halfclose"}]})
+    # several connections answered at the same time through a slow transport: a reply must not change between the moment it
+    # is built and the moment the transport has taken it (serialization buffers shared between connections)
+    for variant in range(8):
+        steps = []
+        for c in range(4):
+            reqs = []
+            for i in range(12):
+                size = [1, 7, 64, 300, 1500, 5000][(i + c + variant) % 6]
+                raw = tok("raw")
+                raw["raw"] = [97 + c] * size
+                reqs.append(R("ECHO", raw))
+                if i % 3 == 0:
+                    reqs.append(R("MGET", tok("key", "k1"), tok("key", "k2")))
+                if i % 4 == 1:
+                    reqs.append(R("CONFIG", tok("word", w="GET"), raw))
+            steps.append({"c": c, "op": "send", "chunking": "perreq", "reqs": reqs})
+        out.append({"handler": "rec", "nconns": 4, "concurrent": True, "slowwrite": True, "steps": steps})
     rng = random.Random(seed)
     for _ in range(nrandom):                       # random payloads over all byte values
         n = rng.choice([0, 1, 2, 3, 8, 40])
